@@ -146,6 +146,7 @@ static void vh_asan_death(void) {
     vh_die_line(6);
 }
 static void vh_install_handlers(unsigned watchdog_secs) {
+    aws_common_library_init(aws_default_allocator()); /* registers the error-code tables (aws_error_name) */
     int sigs[] = {SIGSEGV, SIGBUS, SIGABRT, SIGFPE, SIGILL, SIGALRM};
     for (size_t i = 0; i < sizeof(sigs) / sizeof(sigs[0]); ++i) {
         struct sigaction sa;
